@@ -99,5 +99,65 @@ ReadDerSig(buf) ==
 \* the writer that inverts the reader
 SerDerSig(r, s) == <<48>> \o VarBytes(<<2>> \o VarBytes(r) \o <<2>> \o VarBytes(s))
 
+\* ------------------------------------------------------------ RPC request shapes
+\* What each Proxy method puts on the wire: the JSON-RPC method name and the positional parameters, as a
+\* function of the abstract arguments a (texts are code-point sequences, hashes byte strings in internal
+\* order, transactions/blocks as in Wire).  JSON values are tagged: s(tring) n(umber, integral) b(oolean)
+\* null l(ist) o(bject: <<key, value>> pairs in the order written) amt (a number denoting satoshis).
+JS(v) == [t |-> "s", v |-> v]
+JN(v) == [t |-> "n", v |-> v]
+JB(v) == [t |-> "b", v |-> v]
+JNull == [t |-> "null"]
+JL(v) == [t |-> "l", v |-> v]
+JO(v) == [t |-> "o", v |-> v]
+JAmt(sats) == [t |-> "amt", v |-> sats]
+TxHex(tx) == JS(Hex(SerTx(tx, TRUE)))
+HashHex(h) == JS(RevHex(h))
+Req(name, params) == [name |-> name, params |-> params]
+RpcRequest(m, a) ==
+  CASE m = "dumpprivkey" -> Req("dumpprivkey", <<JS(a.addr)>>)
+    [] m = "fundrawtransaction" -> Req("fundrawtransaction", <<TxHex(a.tx), JB(a.flag)>>)
+    [] m = "generate" -> Req("generate", <<JN(a.n)>>)
+    [] m = "generatetoaddress" -> Req("generatetoaddress", <<JN(a.n), JS(a.addr)>>)
+    [] m = "getaccountaddress" -> Req("getaccountaddress", <<IF a.has THEN JS(a.account) ELSE JNull>>)
+    [] m = "getbalance" -> Req("getbalance", <<JS(a.account), JN(a.n), JB(a.flag)>>)
+    [] m \in {"getbestblockhash", "getblockcount", "getinfo", "getmininginfo", "getrawchangeaddress"} -> Req(m, <<>>)
+    [] m = "getblockheader" -> Req("getblockheader", <<HashHex(a.hash), JB(a.flag)>>)
+    [] m = "getblock" -> Req("getblock", <<HashHex(a.hash), JB(FALSE)>>)
+    [] m = "getblockhash" -> Req("getblockhash", <<JN(a.n)>>)
+    [] m = "getnewaddress" -> Req("getnewaddress", IF a.has THEN <<JS(a.account)>> ELSE <<>>)
+    [] m = "getrawmempool" -> Req("getrawmempool", IF a.flag THEN <<JB(TRUE)>> ELSE <<>>)
+    [] m = "getrawtransaction" -> Req("getrawtransaction", <<HashHex(a.hash), JN(IF a.flag THEN 1 ELSE 0)>> \o (IF a.has THEN <<HashHex(a.hash2)>> ELSE <<>>))
+    [] m = "getreceivedbyaddress" -> Req("getreceivedbyaddress", <<JS(a.addr), JN(a.n)>>)
+    [] m = "gettransaction" -> Req("gettransaction", <<HashHex(a.hash)>>)
+    [] m = "gettxout" -> Req("gettxout", <<HashHex(a.hash), JN(a.n), JB(a.flag)>>)
+    [] m = "importaddress" -> Req("importaddress", <<JS(a.addr), JS(a.label), JB(a.flag)>>)
+    [] m = "listunspent" -> Req("listunspent", <<JN(a.n), JN(a.n2)>> \o (IF a.has THEN <<JL([i \in 1..Len(a.addrs) |-> JS(a.addrs[i])])>> ELSE <<>>))
+    [] m = "lockunspent" -> Req("lockunspent", <<JB(a.flag), JL([i \in 1..Len(a.outpoints) |->
+                                 JO(<< <<"txid", HashHex(a.outpoints[i].hash)>>, <<"vout", JN(a.outpoints[i].n)>> >>)])>>)
+    [] m = "sendrawtransaction" -> Req("sendrawtransaction", <<TxHex(a.tx)>> \o (IF a.flag THEN <<JB(TRUE)>> ELSE <<>>))
+    [] m = "sendtoaddress" -> Req("sendtoaddress", <<JS(a.addr), JAmt(a.sats), JS(a.comment), JS(a.commentto), JB(a.flag)>>)
+    [] m = "sendmany" -> Req("sendmany", <<JS(a.account), JO([i \in 1..Len(a.payments) |-> <<a.payments[i].addr, JAmt(a.payments[i].sats)>>]),
+                                           JN(a.n), JS(a.comment), JL([i \in 1..Len(a.addrs) |-> JS(a.addrs[i])])>>)
+    [] m \in {"signrawtransaction", "signrawtransactionwithwallet"} -> Req(m, <<TxHex(a.tx)>>)
+    [] m = "submitblock" -> Req("submitblock", <<JS(Hex(SerBlock(a.block, TRUE)))>>)
+    [] m = "validateaddress" -> Req("validateaddress", <<JS(a.addr)>>)
+    [] m = "unlockwallet" -> Req("walletpassphrase", <<JS(a.label), JN(a.n)>>)
+    [] m = "createwallet" -> Req("createwallet", <<JS(a.label)>>)
+    [] m = "loadwallet" -> Req("loadwallet", <<JS(a.label), JB(a.flag)>>)
+    [] m = "addnode" -> Req("addnode", <<JS(a.label), JS(<<97, 100, 100>>)>>)
+    [] m = "addnodeonetry" -> Req("addnode", <<JS(a.label), JS(<<111, 110, 101, 116, 114, 121>>)>>)
+    [] m = "removenode" -> Req("addnode", <<JS(a.label), JS(<<114, 101, 109, 111, 118, 101>>)>>)
+\* does the JSON value g on the wire denote the expected value e?  (object keys in the trace are texts too,
+\* written here as strings for the fixed keys: the trace carries fixed keys as strings, address keys as texts)
+RECURSIVE JMatch(_, _)
+JMatch(e, g) ==
+  e.t = g.t /\
+  (CASE e.t \in {"s", "n", "b"} -> e.v = g.v
+     [] e.t = "null" -> TRUE
+     [] e.t = "amt" -> LET d == DenotedSats(g.v) IN d.ok /\ d.sats = e.v
+     [] e.t = "l" -> Len(e.v) = Len(g.v) /\ \A i \in 1..Len(e.v) : JMatch(e.v[i], g.v[i])
+     [] e.t = "o" -> Len(e.v) = Len(g.v) /\ \A i \in 1..Len(e.v) : e.v[i][1] = g.v[i][1] /\ JMatch(e.v[i][2], g.v[i][2]))
+
 IsFinalIn(i) == i.seq = Rep(255, 4)
 =============================================================================
